@@ -45,6 +45,8 @@ type c04Expect struct {
 	// Prelude: a join issued earlier by the same caller in the same process (it may
 	// fail half-way through building its catalog); it must not influence the join under test
 	Prelude string `json:"prelude,omitempty"`
+	// Using: the equi-conjunction is written  USING (c1, c2, ...)  instead of ON (both tables name the columns alike)
+	Using string `json:"using,omitempty"`
 }
 
 var c04Preludes = []string{
@@ -186,6 +188,10 @@ func genC04(t *rapid.T) *Bundle {
 	npairs := rapid.IntRange(1, 3).Draw(t, "npairs")
 	lnames := rapid.Permutation([]string{"a", "z", "m", "k"}).Draw(t, "lnames")[:npairs]
 	rnames := rapid.Permutation([]string{"m", "b", "a", "c"}).Draw(t, "rnames")[:npairs]
+	using := rapid.IntRange(0, 7).Draw(t, "using") == 0
+	if using {
+		rnames = append([]string{}, lnames...)
+	}
 	tricky := rapid.IntRange(0, 6).Draw(t, "tricky") == 0
 	bigNums := rapid.IntRange(0, 5).Draw(t, "big_nums") == 0
 	var pairs []c04Cmp
@@ -261,8 +267,25 @@ func genC04(t *rapid.T) *Bundle {
 		}
 	}
 	on := drawOnTree(t, pairs, 0)
+	usingCols := ""
+	if using {
+		// USING (c1, ..): the conjunction of c = c over a permutation of a non-empty subset of the pairs
+		sel := rapid.Permutation(pairs).Draw(t, "using_cols")[:rapid.IntRange(1, npairs).Draw(t, "using_n")]
+		var names []string
+		on = nil
+		for i := range sel {
+			leaf := &c04Node{Leaf: &c04Cmp{L: sel[i].L, R: sel[i].R, Op: "=", IsStr: sel[i].IsStr}}
+			names = append(names, sel[i].L)
+			if on == nil {
+				on = leaf
+			} else {
+				on = &c04Node{Conn: "AND", Left: on, Right: leaf}
+			}
+		}
+		usingCols = strings.Join(names, ", ")
+	}
 	typ := rapid.SampledFrom([]string{"inner", "left", "right"}).Draw(t, "join_type")
-	exp := c04Expect{Type: typ, On: on, OnSQL: on.sql(), Equi: on.equi()}
+	exp := c04Expect{Type: typ, On: on, OnSQL: on.sql(), Equi: on.equi(), Using: usingCols}
 	exp.Rows = textbookJoin(typ, on, left, right)
 	doc := map[string]any{"t": left, "u": right, "p": []any{
 		map[string]any{"id": float64(1), "o": map[string]any{"q": float64(1)}},
@@ -289,6 +312,9 @@ func genC04(t *rapid.T) *Bundle {
 	}
 	if tricky {
 		tags = append(tags, "tricky_strings")
+	}
+	if using {
+		tags = append(tags, "using")
 	}
 	if big {
 		tags = append(tags, "big_table")
@@ -325,6 +351,9 @@ func evalC04(b *Bundle, r *Runner) []*Violation {
 		if b.hasTag("big_table") && !parallel && si0 > 0 {
 			continue // big tables: every PARALLEL spelling plus one sequential baseline
 		}
+		if exp.Using != "" && strings.Contains(sp, "STRAIGHT") {
+			continue // the grammar has no STRAIGHT_JOIN ... USING
+		}
 		sims := []casefmt.SimConfig{b.Case.Sim}
 		if parallel {
 			sims = c04Sims(b.Case.Sim)
@@ -333,6 +362,9 @@ func evalC04(b *Bundle, r *Runner) []*Violation {
 			c := b.Case
 			c.Sim = sim
 			q := fmt.Sprintf("SELECT * FROM t x %s u y ON %s", sp, exp.OnSQL)
+			if exp.Using != "" {
+				q = fmt.Sprintf("SELECT * FROM t x %s u y USING (%s)", sp, exp.Using)
+			}
 			ops := []casefmt.Op{}
 			if exp.Prelude != "" {
 				ops = append(ops, casefmt.Op{Doc: 0, Vars: -1, Query: exp.Prelude})
@@ -473,7 +505,7 @@ func corpusC04() []*Bundle {
 func init() {
 	register(&Property{
 		ID: "C04", Race: true, Plain: true, Level: "exploration",
-		Rule:   "cases = rapid-generated logical joins (two aliased tables of 0-6 rows, 1-3 key column pairs of one scalar kind each with duplicate keys and per-side column names in arbitrary order, ON = tree of 1-4 column-to-column comparisons over = != < <= > >= joined by AND/OR with either orientation, join type inner/left/right; tables of different Go numeric types and magnitudes >= 1e6; now and then 66-140 distinct keys; a third of the cases issue a possibly failing prelude join first) plus a fixed corpus; each logical join is executed once per strategy spelling of its type (8-10 spellings: automatic, HASH_JOIN, STRAIGHT_JOIN, PARALLEL variants), PARALLEL spellings in a -race child under four schedule/map-order configurations (drawn, walk, pct, sync); every execution is compared as a multiset with a textbook nested-loop join computed by the driver; non-trivial = >=2 tasks runnable at some yield or a non-identity map order was applied; distinct = distinct case-file hash",
+		Rule:   "cases = rapid-generated logical joins (two aliased tables of 0-6 rows, 1-3 key column pairs of one scalar kind each with duplicate keys and per-side column names in arbitrary order, ON = tree of 1-4 column-to-column comparisons over = != < <= > >= joined by AND/OR with either orientation, join type inner/left/right; tables of different Go numeric types and magnitudes >= 1e6; now and then 66-140 distinct keys; a third of the cases issue a possibly failing prelude join first) plus a fixed corpus; each logical join is executed once per strategy spelling of its type (8-10 spellings: automatic, HASH_JOIN, STRAIGHT_JOIN, PARALLEL variants), PARALLEL spellings in a -race child under four schedule/map-order configurations (drawn, walk, pct, sync); every execution is compared as a multiset with a textbook nested-loop join computed by the driver; non-trivial = >=2 tasks runnable at some yield or a non-identity map order was applied; distinct = distinct case-file hash; one case in eight names the key columns alike on both sides and writes the equi-conjunction as USING (c1, ..) under every spelling the grammar allows",
 		Corpus: corpusC04, Gen: genC04, Eval: evalC04, QuickChecks: 30,
 		Assumptions: []string{
 			"each key column pair holds one scalar kind (number or string) and no NULLs: the statement fixes nothing about cross-kind or NULL key comparison",
